@@ -398,8 +398,38 @@ def bounded_webvtt(ctx, b):
         b.guard(("verbatim-mixed", tuple(order)), mixed, sample={"settings": sets})
 
 
+def convert_caption_layouts(c):
+    """WebVTTWriter._convert_caption: one cue per layout group, all with the caption's times, each positioned by the
+    group's own layout - else the caption's, else the language-level one - whatever the groups before it had
+    (P[n]: 0-3 groups; grouping, positioning arithmetic and timestamps by their own contracts)."""
+    from pycaption import Caption
+    n = c.pick("groups", [0, 1, 2, 3])
+    marks = ["layout-A", "layout-B"]
+    groups = [(f"text{i}", c.pick(f"group_layout_{i}", [None, "layout-A", "layout-B"])) for i in range(n)]
+    cap_layout = c.pick("caption_layout", [None, "caption-layout"])
+    glob = c.pick("language_layout", [None, "language-layout"])
+    seen = []
+    w = c.new(W, global_layout=glob, video_width=None, video_height=None, relativize=True, fit_to_screen=True)
+    cap = c.new(Caption, start=1, end=2, nodes=["nodes"], style={}, layout_info=cap_layout)
+
+    def h_pos(interp, fn, args, kw):
+        seen.append(args[1])
+        return f" settings-of-{args[1]}"
+    contracts = {"pycaption.webvtt:WebVTTWriter._group_cues_by_layout": lambda interp, fn, a, kw: list(groups),
+                 "pycaption.webvtt:WebVTTWriter._convert_positioning": h_pos,
+                 "pycaption.webvtt:WebVTTWriter._timestamp": lambda interp, fn, a, kw: f"T{a[1]}",
+                 "pycaption.webvtt:WebVTTWriter._calculate_resulting_style": lambda interp, fn, a, kw: {}}
+    c.interp.contracts.update(contracts)
+    r = c.call(W._convert_caption, w, "caption set", cap, compare=False)
+    want = [g_l or cap_layout or glob for _, g_l in groups]
+    c.ensure("one_positioning_per_group_with_its_effective_layout", seen == want)
+    blocks = [f"T1 --> T2 settings-of-{l}\n{t}\n" for (t, _), l in zip(groups, want)]
+    c.ensure("cue_blocks_with_the_captions_times_separated_by_a_blank_line", r == "\n".join(blocks))
+
+
 def run(ctx):
     P = ctx.prove
+    P("webvtt.WebVTTWriter._convert_caption/layouts", convert_caption_layouts, functions=[W._convert_caption], crosscheck=False)
     P("webvtt.WebVTTWriter._convert_positioning", webvtt_settings, functions=[W._convert_positioning],
       contracts={"pycaption.geometry:Size.__str__": _size_str})
     P("webvtt.WebVTTWriter._convert_positioning/verbatim", webvtt_verbatim, functions=[W._convert_positioning])
